@@ -121,7 +121,7 @@ impl Check for C18 {
     }
 
     fn cases(&self, tier: Tier) -> u64 {
-        tier.pick(30_000, 1_000_000)
+        tier.pick(60_000, 1_000_000)
     }
 
     fn rule(&self) -> String {
